@@ -519,6 +519,38 @@ func runC05(r *core.Run) {
 			r.Capped.Store(true)
 		}
 	}
+	// legacy LeaseSets whose (unused, but signed) revocation key is a degenerate value - all zero as some routers publish
+	// it, one, all ones: whether such a set is accepted is the parser's business; if it is, every covered bit still counts
+	for _, fill := range []struct {
+		name string
+		f    func(n int) []byte
+	}{
+		{"zero", func(n int) []byte { return make([]byte, n) }},
+		{"one", func(n int) []byte { b := make([]byte, n); b[n-1] = 1; return b }},
+		{"all-ones", func(n int) []byte { return bytes.Repeat([]byte{0xff}, n) }},
+	} {
+		fill := fill
+		sx, capped := choose.Explore(1, core.Workers(), r.Expired, func(c *choose.Ctx) {
+			sg := gen.LeaseSet(c)
+			ls, ok := sg.Value.(refmodel.LeaseSet)
+			if !ok || len(ls.SignKey) == 0 {
+				return
+			}
+			ls.SignKey = fill.f(len(ls.SignKey))
+			ls.Sig = nil
+			var b refmodel.Buf
+			ls.Emit(&b)
+			ls.Sig = refmodel.Sign(sg.Signer, b.B)
+			b = refmodel.Buf{}
+			ls.Emit(&b)
+			c05One(r, c.Worker, gen.Signed{Kind: "LeaseSet", Bytes: b.B, Regions: b.R, Value: ls, Signer: sg.Signer, IDKey: sg.IDKey}, 0, c.Describe()+"|revocation-key="+fill.name, len(c.Deviations()), !r.Quick(), &st)
+		})
+		r.States.Add(sx.Points)
+		r.Transitions.Add(sx.Transitions)
+		if capped {
+			r.Capped.Store(true)
+		}
+	}
 	r.Sample(map[string]any{"kind": "LeaseSet2", "derivation": "offline-forged(attacker-transient,zero-authorisation)"})
 	r.Sample(map[string]any{"kind": "RouterInfo", "derivation": "grow(options.size,3): three junk bytes inside the options mapping, size bumped"})
 }
